@@ -130,3 +130,8 @@ def check(ctx):
             expand_pb(nf.subst_sym(up[0].nf, {"pressure": pb_atom})), expand_pb(nf.subst_sym(lo[0].nf, {"pressure": pb_atom})),
         )
     ctx.floor("C12-b", n, 4, "continuous branching correlations")
+
+    # ---- C12-e array results keep float dtype (an integer pressure table must not truncate Rs / Bo)
+    from .dtypes import check_module_buffers
+
+    check_module_buffers(ctx, "C12-e", "bluebonnet.fluids.oil", floor=2)
